@@ -9,6 +9,7 @@ R18.3 a successful non-empty write stamps the modification time from the clock
 R18.4 rename keeps the entry body: the renamed entry is a clone with only the name replaced
 R18.5 the editor's "unchanged" test covers every stored field of the timestamp it guards
 """
+import re
 from analyses import Deps, Must, edge_dominates, error_blocks, switch_source
 from core import vkey
 from model import op_const, op_place, operands_of_rvalue
@@ -104,7 +105,8 @@ def run(ctx, rep):
         if callee not in facts.fns:
             rep.machinery('ANCHOR-MISSING ' + callee)
             continue
-        cs = {c for c in callers_of(facts, callee) if c.startswith(('fatfs::', '<fatfs::'))}
+        # a closure is code of the function that defines it
+        cs = {re.sub(r'(::\{closure#\d+\})+$', '', c) for c in callers_of(facts, callee) if c.startswith(('fatfs::', '<fatfs::'))}
         allowed = set(allowed)
         if 'fatfs::file::File::update_dir_entry_after_write' in allowed and \
                 'fatfs::file::File::update_dir_entry_after_write' not in facts.fns:
